@@ -23,7 +23,7 @@ TIERS = {
 }
 REQUIRED_BUCKETS = ['import:plain', 'import:as', 'import:from', 'import:from-as', 'obj:function', 'obj:class', 'obj:nested-class', 'obj:method', 'obj:nested-method',
                     'spelling:two-for-one-object', 'order:class-then-method', 'order:method-then-class', 'order:method-via-other-spelling-than-class',
-                    'ref:created-before-method-configured', 'ref:scoped', 'include:own-imports', 'include:colliding-bound-name', 'error:name-from-includer', 'error:name-from-includee',
+                    'ref:created-before-method-configured', 'ref:scoped', 'obj:registered-by-decorator-under-custom-name', 'include:own-imports', 'include:colliding-bound-name', 'error:name-from-includer', 'error:name-from-includee',
                     'error:attribute', 'error:gin-reserved', 'error:late-enabling', 'error:aliased-enabling', 'error:unknown-feature', 'roundtrip:same-process',
                     'roundtrip:fresh-process', 'equally-named-modules', 'cross-parse:second-parse', 'cross-parse:include', 'cross-parse:includer']
 ORACLE_COUNTERS = ['oracle_evals', 'deliveries_compared', 'roundtrips']
@@ -37,6 +37,8 @@ OBJECTS = {
     'alpha.K.other': ('alpha', ['K', 'other'], ['o'], 'method'),
     'alpha.K.Inner': ('alpha', ['K', 'Inner'], ['i'], 'nested-class'),
     'alpha.K.Inner.deep': ('alpha', ['K', 'Inner', 'deep'], ['d'], 'nested-method'),
+    'alpha.decorated': ('alpha', ['decorated'], ['z'], 'function'),          # registered by its module's decorator under a custom name
+    'alpha.Outer.Nested': ('alpha', ['Outer', 'Nested'], ['n'], 'nested-class'),  # likewise, and nested in another class
     'beta.fb': ('beta', ['fb'], ['x'], 'function'),
     'beta.K': ('beta', ['K'], ['a'], 'class'),
     'sub.alpha.fa': ('sub.alpha', ['fa'], ['x'], 'function'),
@@ -199,6 +201,8 @@ def run_bindings(ctx, case):
       first_use.setdefault(obj, idx)
       spell_used.setdefault(obj, set()).add(sp)
       ctx.bucket('obj:' + OBJECTS[obj][3])
+      if obj in ('alpha.decorated', 'alpha.Outer.Nested'):
+        ctx.bucket('obj:registered-by-decorator-under-custom-name')
     else:
       _, obj, sp, prm, refsp, rsc = st
       body.append('%s.%s = @%s%s()' % (sp.replace('PK', pk), prm, rsc + '/' if rsc else '', refsp.replace('PK', pk)))
